@@ -380,11 +380,14 @@ def run(rep, tier, seed, replay):
                        ('MC_LogConc(readers)', 'MC_LogConc_rd.cfg')]):
         res = _check('MC_LogConc.tla', cfg, timeout=2400)
         rep.add_design(name, res)
+        core.log('X05: design check %s: %d distinct states, %.0fs' % (cfg, res['distinct'], res['wall']))
         if res['violated']:
             raise core.Inconclusive('the design check of LogConc.tla fails (%s): not a verdict by itself' % res['violated'])
     # 2. behaviours: simulation pool (feature-guided selection) + phase-scheduled families
-    num, depth, keep = (3000, 45, 250) if not thorough else (15000, 60, 1500)
+    num, depth, keep = (3000, 45, 250) if not thorough else (8000, 60, 1000)
+    t0 = time.time()
     sims = _retry(core.tlc_simulate, 'MC_LogConc.tla', 'Sim_LogConc.cfg', num, depth, seed, timeout=1200)
+    core.log('X05: simulated %d behaviours in %.0fs' % (len(sims), time.time() - t0))
     chosen, simcount = from_sim(sims, 1, keep, rng)
     behaviours = chosen + directed()
     with core.scratch('x05') as d:
@@ -400,7 +403,7 @@ def run(rep, tier, seed, replay):
             rep.cov['race_detector_lines'] = res2['validated']
     # 4. stress: real schedules, plain and with the race detector; TLC judges the final state and what the calls
     #    returned.  A finding counts only after reproduction through the gates.
-    n_rounds, n_msgs = (10, 150) if not thorough else (50, 300)
+    n_rounds, n_msgs = (10, 150) if not thorough else (30, 300)
     stress_bad, n_stress = [], 0
     with core.scratch('x05s') as d:
         for race in (False, True):
